@@ -215,6 +215,9 @@ def check_case(ctx, case):
     if warned:
         ctx.count("inputs_where_rewriter_gave_up")
     if got.kind != "obj":
+        if C.overflow_excusable(s, got):
+            ctx.count("overflow_with_undefined_constant_part_unfiltered")
+            return
         ctx.violation("simplification_raised", f"{entry} of {S.show(s)[:400]}: {got.brief()}")
         return
     try:
